@@ -47,7 +47,7 @@ class PartiesEngine(Engine):
     def plan(self, prop, tier):
         if tier == 'quick':
             return {'runs': 12000, 'chunk': 100, 'wall_cap': 200, 'determinism_runs': 40}
-        return {'runs': 1000000, 'chunk': 500, 'wall_cap': 2400, 'determinism_runs': 600}
+        return {'runs': 400000, 'chunk': 500, 'wall_cap': 2400, 'determinism_runs': 600}
 
     def describe(self, prop):
         return {
